@@ -1,5 +1,6 @@
 """C20 - HTTP API (api/app.py): wiring of query parameters to library arguments and of results to JSON keys."""
 import ast
+from fractions import Fraction as F
 from .. import alg
 from ..alg import Rat, C
 from ..model import AnalysisError, stmt_text, Ext
@@ -126,6 +127,55 @@ def handler_rules(repo, rep):
                 rep.violated('R-WIRE', base + 'early-return::%s' % st, w, 'the handler can answer a well-formed query with status %s: it returns early when %s '
                              '(0 is a valid latitude, longitude, azimuth and distance)' % (st, ' and '.join(alg.fmt(c, 3)[:120] for c in g)),
                              expected='status 200 with the library result for every in-domain query', actual='status %s under %s' % (st, ' and '.join(alg.fmt(c, 2)[:80] for c in g)))
+            if len(ok_paths) > 1:
+                # several successful answers: the one built from the library call is the answer; any other is a shortcut that answers a
+                # well-formed query with something else whenever its condition holds
+                def uses_lib(v_):
+                    try:
+                        vals_ = list(v_.items[0].d.values()) if isinstance(v_.items[0], DictV) else []
+                        vals_ = [getattr(x_, 'rat', x_) for x_ in vals_]
+                        return any(isinstance(x_, Rat) and any(alg.TABLE.atoms[k_].kind == 'fn' and alg.TABLE.atoms[k_].name == 'call:' + lib for k_ in x_.atoms(deep=True)) for x_ in vals_)
+                    except Exception:
+                        return False
+                main_ = [(g, v) for g, v in ok_paths if uses_lib(v)]
+                def tiny_separation(conds_):
+                    # every conjunct is |difference| < small: the shortcut is taken for (numerically) coincident points only, where the
+                    # library itself answers (0, 0, 0)
+                    flat_ = []
+
+                    def fl(c_):
+                        a_ = _single_atom(c_) if isinstance(c_, Rat) else None
+                        if a_ is not None and a_.kind == 'fn' and a_.name == 'and':
+                            for x_ in a_.args:
+                                fl(x_)
+                        else:
+                            flat_.append(a_)
+                    for c_ in conds_:
+                        fl(c_)
+                    if not flat_:
+                        return False
+                    for a_ in flat_:
+                        if a_ is None or a_.kind != 'fn' or a_.name not in ('lt', 'le') or len(a_.args) != 2 or not all(isinstance(x_, Rat) for x_ in a_.args):
+                            return False
+                        l_, r_ = a_.args
+                        la_ = _single_atom(l_)
+                        rf_ = r_.as_fraction()
+                        if la_ is None or la_.kind != 'fn' or la_.name != 'abs' or rf_ is None or not (0 < rf_ <= F(1, 10 ** 6)):
+                            return False
+                    return len(flat_) >= 2
+                for g, v in ok_paths:
+                    if (g, v) in main_[:1]:
+                        continue
+                    if tiny_separation(g):
+                        rep.holds('R-WIRE', base + 'shortcut', w, 'a shortcut for coincident points (every coordinate difference below a tiny bound in magnitude), where the library answers zeros too')
+                        continue
+                    rep.violated('R-WIRE', base + 'shortcut', w, 'the handler answers a well-formed query WITHOUT the library result when %s: the response is %s - for a condition that is '
+                                 'true of ordinary queries (not only of the degenerate one it was meant for) the client gets these constants with status 200' % (
+                                     ' and '.join(alg.fmt(c, 3)[:100] for c in g) or 'a condition holds',
+                                     '{%s}' % ', '.join('%s: %s' % (k_, show(x_, 1, 20)) for k_, x_ in sorted(v.items[0].d.items())) if isinstance(v.items[0], DictV) else show(v.items[0], 2, 120)),
+                                 expected='the values %s returns, for every query' % lib, actual='a constant answer under %s' % ' and '.join(alg.fmt(c, 2)[:60] for c in g))
+                if main_:
+                    ok_paths = main_[:1]
             if len(ok_paths) == 1:
                 val = ok_paths[0][1]
         if not (isinstance(val, Tup) and len(val.items) == 2 and isinstance(val.items[0], DictV)):
@@ -211,6 +261,12 @@ def return_paths(v, guards=()):
             ta = Tup([pick(x, c, True) for x in v.items])
             tb = Tup([pick(x, c, False) for x in v.items])
             return return_paths(ta, guards + (c,)) + return_paths(tb, guards + (alg.opaque('not', (c,)),))
+    if isinstance(v, Tup) and v.items and isinstance(v.items[0], IteV):
+        # two returns with the same status merged into one tuple whose body is conditional: split on the body's condition
+        b0 = v.items[0]
+        ta = Tup([b0.a] + list(v.items[1:]))
+        tb = Tup([b0.b] + list(v.items[1:]))
+        return return_paths(ta, guards + (b0.cond,)) + return_paths(tb, guards + (alg.opaque('not', (b0.cond,)) if isinstance(b0.cond, Rat) else b0.cond,))
     return [(guards, v)]
 
 
